@@ -326,14 +326,12 @@ mk('C05-climber-shrink-forgets-queue-type', 'policy.go',
 	}
 
 	p.mainProtectedMaximum -= uint64(quota)''')
-mk('C04-climber-grows-window-beyond-quota', 'policy.go',
-'''	p.mainProtectedMaximum += uint64(quota)
-	p.windowMaximum -= uint64(quota)
-	p.adjustment = quota
-}''',
-'''	p.mainProtectedMaximum += uint64(quota)
-	p.adjustment = quota
-}''')
+mk('C13-periodic-cleanup-does-nothing', 'cache_impl.go',
+'''		case <-tick:
+			c.CleanUp()
+			c.clock.ProcessTick()''',
+'''		case <-tick:
+			c.clock.ProcessTick()''')
 os.chdir("/")
 shutil.rmtree(D)
 print("not generated:", bad)
